@@ -146,6 +146,19 @@ pub fn fn_event(k: u64, d: &[u8], with_cfg: bool) -> Value {
         }
         Err(_) => {}
     }
+    match catch(|| codec::av1::parse_obu_header(d)) {
+        Ok(Some(o)) => {
+            m.insert("obu".into(), json!({"some": true, "type": o.obu_type, "ext": o.has_extension as u8,
+                "hdr": o.header_size.min(0x7fff_ffff), "payload": o.payload_size.min(1_000_000_000), "total": o.total_size.min(0x7fff_ffff)}));
+        }
+        Ok(None) => {
+            m.insert("obu".into(), json!({"some": false}));
+        }
+        Err(_) => {}
+    }
+    if let Ok(n) = catch(|| codec::av1::ObuIter::new(d).count()) {
+        m.insert("obucount".into(), json!(n));
+    }
     match catch(|| codec::vp9::extract_vp9_config(d)) {
         Ok(Some(c)) => {
             m.insert("vp9".into(), json!({"some": true, "profile": c.profile, "depth": c.bit_depth, "cs": c.color_space,
